@@ -48,7 +48,7 @@ class KernelReturn(Exception):
 # ------------------------------------------------------------------ abstract values
 
 SIZES = {"u8": 1, "i8": 1, "u16": 2, "i16": 2, "u32": 4, "i32": 4, "f32": 4, "__m256i": 32, "__m128i": 16,
-         "__m256": 32, "__m128": 16}
+         "__m256": 32, "__m128": 16, "uint8x16_t": 16, "uint32x4_t": 16, "float32x4_t": 16}
 
 
 class Ptr:
@@ -214,9 +214,18 @@ MEM = {
     "_mm_store_ps": (True, 16, 16), "_mm_storeu_ps": (True, 16, 1),
     "_mm_stream_si128": (True, 16, 16), "_mm_stream_ps": (True, 16, 16),
     "_mm_load1_ps": (False, 4, 4), "_mm_load_ps1": (False, 4, 4), "_mm_load_ss": (False, 4, 1),
+    # NEON (neon.rs): vld1/vst1 need the alignment of the element type only
+    "vld1q_u8": (False, 16, 1), "vst1q_u8": (True, 16, 1),
+    "vld1q_u8_x4": (False, 64, 1), "vst1q_u8_x4": (True, 64, 1),
+    "vld1q_f32": (False, 16, 4), "vst1q_f32": (True, 16, 4),
+    "vld1q_f32_x4": (False, 64, 4), "vst1q_f32_x4": (True, 64, 4),
+    "vld1q_dup_f32": (False, 4, 4), "vld1q_u32": (False, 16, 4), "vst1q_u32": (True, 16, 4),
 }
 GATHER = {"_mm256_i32gather_ps": 4, "_mm256_i32gather_epi32": 4}
-MEM_RX = re.compile(r"\b(_mm\d*_(?:load|loadu|lddqu|store|storeu|stream|i32gather|i64gather|load1|maskload|maskstore)\w*)\s*\(")
+MEM_RX = re.compile(r"\b(_mm\d*_(?:load|loadu|lddqu|store|storeu|stream|i32gather|i64gather|load1|maskload|maskstore)\w*"
+                    r"|v(?:ld|st)[1-4]q?_\w+)\s*\(")
+# register arithmetic (no memory): x86 `_mm*`, NEON `v...q_...` and the NEON tuple constructors
+REG_RX = re.compile(r"_mm\d*_\w+\s*\(|\bv[a-z]+[0-9]*q?_[a-z0-9_]+\s*\(|\b(?:u?int|float)\d+x\d+(?:x\d+)?_t\s*\(")
 POINTERISH = re.compile(r"\.add\(|\.sub\(|\.offset\(|as_ptr\(|as_mut_ptr\(|\*mut |\*const ")
 
 
@@ -325,6 +334,7 @@ class Interp:
         c = self.consts
         e = e.strip()
         e = e.replace("<Avx2 as Backend>::Lanes::USIZE", "32").replace("<Sse2 as Backend>::Lanes::USIZE", "16")
+        e = e.replace("<Neon as Backend>::Lanes::USIZE", "16")
         e = re.sub(r"(?:std::mem::)?size_of::<\s*(\w+)\s*>\(\)", lambda m: str(SIZES[m.group(1)]) if m.group(1) in SIZES else "UNSUPPORTED_SIZE", e)
         e = e.replace("<A as Alphabet>::K::I32", str(c["K"])).replace("<A as Alphabet>::K::USIZE", str(c["K"]))
         e = e.replace("A::K::USIZE", str(c["K"])).replace("A::K::I32", str(c["K"]))
@@ -435,7 +445,7 @@ class Interp:
                 self.run(body)
                 return
             cond = header[len("else if "):] if header.startswith("else if ") else header[len("if "):]
-            if "_mm" in cond or ".iter()" in cond:
+            if REG_RX.search(cond) or ".iter()" in cond:
                 # data-dependent condition (error flag): both outcomes allowed; the body may only be safe code
                 if has_memory(body):
                     raise Unsupported("data-dependent `if %s` guards memory operations" % cond)
@@ -535,13 +545,13 @@ class Interp:
             gm = re.match(r"^GenericArray::<\s*(\w+)\s*,\s*C\s*>::default\(\)$", rhs)
             if gm:
                 return ("garray", name, SIZES[gm.group(1)])
-            opaque = has_mem or ("_mm" in rhs and not POINTERISH.search(rhs))
+            opaque = has_mem or (bool(REG_RX.search(rhs)) and not POINTERISH.search(rhs))
             return ("let", name, rhs, has_mem, opaque, bool(POINTERISH.search(rhs)), s)
         m = re.match(r"^(\w+)\s*(\+=|-=|=)\s*(.+)$", s)
         if m:
             name, op, rhs = m.groups()
             has_mem = bool(MEM_RX.search(rhs))
-            opaque = has_mem or ("_mm" in rhs and not POINTERISH.search(rhs))
+            opaque = has_mem or (bool(REG_RX.search(rhs)) and not POINTERISH.search(rhs))
             return ("assign", name, op, rhs, has_mem, opaque, bool(POINTERISH.search(rhs)), s)
         if MEM_RX.search(s):
             return ("mem", s)
@@ -684,6 +694,10 @@ KERNELS = {
     "max_u8_avx2": ("pli/platform/avx2.rs", "max_u8_avx2", env_max(1)),
     "argmax_sse2": ("pli/platform/sse2.rs", "argmax_sse2", env_max(4)),
     "stripe_avx2": ("pli/platform/avx2.rs", "stripe_avx2", env_stripe),
+    # NEON: never executed on this host — interpreted from the text like the others
+    "encode_into_neon": ("pli/platform/neon.rs", "encode_into_neon", env_encode),
+    "score_f32_neon": ("pli/platform/neon.rs", "score_f32_neon", env_score(4)),
+    "score_u8_neon": ("pli/platform/neon.rs", "score_u8_neon", env_score(1)),
 }
 
 
@@ -692,6 +706,11 @@ KERNELS = {
 def stride(es, C):
     """DenseMatrix<T, C> stride in elements on x86_64 (rows are 32-byte aligned)."""
     return (es * C + 31) // 32 * 32 // es
+
+
+def stride16(es, C):
+    """DenseMatrix<T, C> stride in elements on Arm (rows are 16-byte aligned)."""
+    return (es * C + 15) // 16 * 16 // es
 
 
 def grid(tier="quick"):
@@ -726,6 +745,22 @@ def grid(tier="quick"):
                 cases.append(("score_f32_avx2_gather", dict(base, K=21, pst=stride(4, 21), dst=32)))
                 cases.append(("score_f32_avx2_gather", dict(base, K=5, pst=stride(4, 5), dst=32)))
                 cases.append(("score_u8_avx2_shuffle", dict(base, K=5, pst=stride(1, 5), dst=32)))
+    # NEON: Arm layout (rows 16-byte aligned).  `unranged=0`: the range ends inside the matrix;
+    # `unranged=1`: a call Neon::score_*_rows_into lets through (wrap >= M - 1, L >= M, non-empty range)
+    # although the range reaches into the look-ahead rows (finding F26: no row-range check in neon.rs)
+    for L in Ls:
+        cases.append(("encode_into_neon", dict(L=L, K=5)))
+    for (K, L, M, a, b) in sc[:6]:
+        for C in (16, 32):
+            R = (L + C - 1) // C
+            wrap = M - 1
+            bb = max(1, min(b, R))
+            aa = min(a, bb - 1)
+            base = dict(L=L, M=M, SR=R + wrap, wrap=wrap, C=C, sst=stride16(1, C))
+            for (lo, hi, unr) in ((aa, bb, 0), (0, R + wrap, 1 if M > 1 else 0)):
+                cases.append(("score_f32_neon", dict(base, a=lo, b=hi, unranged=unr, K=K, pst=stride16(4, K), dst=stride16(4, C))))
+                cases.append(("score_f32_neon", dict(base, a=lo, b=hi, unranged=unr, K=21, pst=stride16(4, 21), dst=stride16(4, C))))
+                cases.append(("score_u8_neon", dict(base, a=lo, b=hi, unranged=unr, K=K, pst=stride16(1, K), dst=stride16(1, C))))
     for rows in (1, 2, 3, 7, 32, 33, 100):
         cases.append(("argmax_f32_avx2", dict(rows=rows, st=32, maxidx=rows * 32)))
         cases.append(("max_f32_avx2", dict(rows=rows, st=32)))
